@@ -247,6 +247,10 @@ type notesSlideXML struct {
 type relationshipsXML struct {
 	XMLName      xml.Name          `xml:"Relationships"`
 	Relationship []relationshipXML `xml:"Relationship"`
+
+	// sourceDir is the directory of the part these relationships belong to;
+	// relative targets are resolved against it. Not part of the XML.
+	sourceDir string
 }
 
 type relationshipXML struct {
